@@ -280,27 +280,9 @@ template <class T> static inline quad tol_of (quad asum, int k, bool lattice, bo
 // =========================================================================================
 // 1. dot and cross products of vectors
 // k: dot of n terms -> n+1; cross -> 3.   measured worst (units of u*sum|terms|): dot2 1.95  dot3 2.56  dot4 3.31  cross2 1.97  cross3 1.98
-template <class T> static void vec_case (vp::Ctx& c)
+// checks on given operands (no draws): shared by the random-operand sub-checks and the structured ones of section 7
+template <class T> static void vec_check (vp::Ctx& c, const T* a, const T* b, int dim, bool lat)
 {
-    vp::Src& s    = c.s;
-    int      mode = pick_mode (s);
-    int      dim  = 2 + (int) s.below (3);
-    T        a[4], b[4];
-    gen_arr (s, mode, a, dim);
-    gen_arr (s, mode, b, dim);
-    bool lat = mode == M_LATTICE;
-    mode_label (c, mode);
-    c.label (L_DIM2 + dim - 2);
-    Distinct dd;
-    for (int i = 0; i < dim; ++i)
-    {
-        dd.add (a[i]);
-        dd.add (b[i]);
-    }
-    bool dist = dd.result ();
-    if (dist) c.label (L_DISTINCT);
-    c.nt (lat || dist || mode == M_SPARSE);
-    VP_NOTE (c, tname<T> () << " dim=" << dim << " " << mode_name (mode) << " a=" << vstr (a, dim) << " b=" << vstr (b, dim));
     quad dot = 0, adot = 0;
     for (int i = 0; i < dim; ++i)
     {
@@ -360,6 +342,31 @@ template <class T> static void vec_case (vp::Ctx& c)
     }
 }
 
+
+template <class T> static void vec_case (vp::Ctx& c)
+{
+    vp::Src& s    = c.s;
+    int      mode = pick_mode (s);
+    int      dim  = 2 + (int) s.below (3);
+    T        a[4], b[4];
+    gen_arr (s, mode, a, dim);
+    gen_arr (s, mode, b, dim);
+    bool lat = mode == M_LATTICE;
+    mode_label (c, mode);
+    c.label (L_DIM2 + dim - 2);
+    Distinct dd;
+    for (int i = 0; i < dim; ++i)
+    {
+        dd.add (a[i]);
+        dd.add (b[i]);
+    }
+    bool dist = dd.result ();
+    if (dist) c.label (L_DISTINCT);
+    c.nt (lat || dist || mode == M_SPARSE);
+    VP_NOTE (c, tname<T> () << " dim=" << dim << " " << mode_name (mode) << " a=" << vstr (a, dim) << " b=" << vstr (b, dim));
+    vec_check<T> (c, a, b, dim, lat);
+}
+
 #define C05_RULE_COMMON "operand class per case: integer lattice -8..8 (exact), sparse (signed zeros, affine / single-non-zero / masked last column), graded exponents 2^+-20, well-scaled uniform(-4,4); oracle = textbook sum of products in __float128 with k*u*sum|terms| bound, equality on lattices, spellings bit-identical; non-trivial = lattice, sparse, or all operand entries non-zero and pairwise distinct"
 
 VP_RANDOM (vec_f, 2000000, 40000000, "Vec2/3/4<float> dot,^,cross,%,%=; " C05_RULE_COMMON) { vec_case<float> (c); }
@@ -373,25 +380,8 @@ VP_REQUIRE_LABELS (vec_d, "lattice", "sparse", "graded", "random", "exact_equali
 // 2. quaternion (Hamilton) product and 4-D dot
 // k = 5 (product, 3-term dot, final subtraction / product, cross subtraction, two additions)
 // measured worst: quat-product-r 3.31  quat-product-v 2.85  quat-dot 3.34
-template <class T> static void quat_case (vp::Ctx& c)
+template <class T> static void quat_check (vp::Ctx& c, const T* p, const T* q, bool lat)
 {
-    vp::Src& s    = c.s;
-    int      mode = pick_mode (s);
-    T        p[4], q[4];
-    gen_arr (s, mode, p, 4);
-    gen_arr (s, mode, q, 4);
-    bool lat = mode == M_LATTICE;
-    mode_label (c, mode);
-    Distinct dd;
-    for (int i = 0; i < 4; ++i)
-    {
-        dd.add (p[i]);
-        dd.add (q[i]);
-    }
-    bool dist = dd.result ();
-    if (dist) c.label (L_DISTINCT);
-    c.nt (lat || dist || mode == M_SPARSE);
-    VP_NOTE (c, tname<T> () << " " << mode_name (mode) << " q1=(r,x,y,z)=" << vstr (p, 4) << " q2=" << vstr (q, 4));
     Quat<T> A (p[0], p[1], p[2], p[3]), B (q[0], q[1], q[2], q[3]);
     // Hamilton product, textbook: (r1 r2 - v1.v2 , r1 v2 + r2 v1 + v1 x v2)
     quad r1 = p[0], x1 = p[1], y1 = p[2], z1 = p[3], r2 = q[0], x2 = q[1], y2 = q[2], z2 = q[3];
@@ -436,6 +426,27 @@ template <class T> static void quat_case (vp::Ctx& c)
         CHK (T, d, ex, as, 5, lat, "quat-dot", "Quat q1^q2");
     }
 }
+template <class T> static void quat_case (vp::Ctx& c)
+{
+    vp::Src& s    = c.s;
+    int      mode = pick_mode (s);
+    T        p[4], q[4];
+    gen_arr (s, mode, p, 4);
+    gen_arr (s, mode, q, 4);
+    bool lat = mode == M_LATTICE;
+    mode_label (c, mode);
+    Distinct dd;
+    for (int i = 0; i < 4; ++i)
+    {
+        dd.add (p[i]);
+        dd.add (q[i]);
+    }
+    bool dist = dd.result ();
+    if (dist) c.label (L_DISTINCT);
+    c.nt (lat || dist || mode == M_SPARSE);
+    VP_NOTE (c, tname<T> () << " " << mode_name (mode) << " q1=(r,x,y,z)=" << vstr (p, 4) << " q2=" << vstr (q, 4));
+    quat_check<T> (c, p, q, lat);
+}
 VP_RANDOM (quat_f, 1500000, 30000000, "Quat<float> operator*, *=, q*=q, ^; " C05_RULE_COMMON) { quat_case<float> (c); }
 VP_LABELS (quat_f, C05_LABELS)
 VP_REQUIRE_LABELS (quat_f, "lattice", "sparse", "graded", "random", "exact_equality_demanded", "all_nonzero_distinct")
@@ -446,23 +457,9 @@ VP_REQUIRE_LABELS (quat_d, "lattice", "sparse", "graded", "random", "exact_equal
 // =========================================================================================
 // 3. matrix x matrix
 // k = N+1.  measured worst: mat22 1.96  mat33 2.80  mat44 3.55
-template <class T, int N> static void matmul_dim (vp::Ctx& c, int mode, typename TY<T, N>::M& A, typename TY<T, N>::M& B)
+template <class T, int N> static void matmul_check (vp::Ctx& c, const typename TY<T, N>::M& A, const typename TY<T, N>::M& B, bool lat)
 {
     typedef typename TY<T, N>::M MT;
-    gen_mat<T, N> (c, mode, A);
-    gen_mat<T, N> (c, mode, B);
-    bool     lat = mode == M_LATTICE;
-    Distinct da, db;
-    for (int i = 0; i < N; ++i)
-        for (int j = 0; j < N; ++j)
-        {
-            da.add (A[i][j]);
-            db.add (B[i][j]);
-        }
-    bool dist = da.result () && db.result ();
-    if (dist) c.label (L_DISTINCT);
-    c.nt (lat || dist || mode == M_SPARSE);
-    VP_NOTE (c, tname<T> () << " N=" << N << " " << mode_name (mode) << " A=" << mstr (A, N) << " B=" << mstr (B, N));
     QM<N> qa = QM<N>::from (A), qb = QM<N>::from (B);
     QM<N> ex = qa * qb, as = absmul (qa, qb);
     MT    P  = A * B;
@@ -487,6 +484,25 @@ template <class T, int N> static void matmul_dim (vp::Ctx& c, int mode, typename
                 SAME (T, D[i][j], D2[i][j], skey, "Matrix" << N << N << " A*=A vs A*A slot [" << i << "][" << j << "]");
         c.label (L_ALIASED);
     }
+}
+template <class T, int N> static void matmul_dim (vp::Ctx& c, int mode, typename TY<T, N>::M& A, typename TY<T, N>::M& B)
+{
+    typedef typename TY<T, N>::M MT;
+    gen_mat<T, N> (c, mode, A);
+    gen_mat<T, N> (c, mode, B);
+    bool     lat = mode == M_LATTICE;
+    Distinct da, db;
+    for (int i = 0; i < N; ++i)
+        for (int j = 0; j < N; ++j)
+        {
+            da.add (A[i][j]);
+            db.add (B[i][j]);
+        }
+    bool dist = da.result () && db.result ();
+    if (dist) c.label (L_DISTINCT);
+    c.nt (lat || dist || mode == M_SPARSE);
+    VP_NOTE (c, tname<T> () << " N=" << N << " " << mode_name (mode) << " A=" << mstr (A, N) << " B=" << mstr (B, N));
+    matmul_check<T, N> (c, A, B, lat);
 }
 template <class T> static void matmul44_static (vp::Ctx& c, const Matrix44<T>& A, const Matrix44<T>& B)
 {
@@ -606,6 +622,117 @@ template <class S> static inline quad homog_tol (quad a, quad sa, quad w, quad s
         if (!(d_ <= tol_)) fail_value (c, key, tname<S> (), WHAT_ (what << " [homogeneous: (v,1).M / w, w=" << qstr (w) << "]"), (double) (got), ex_, d_, tol_, (sa)); \
     } while (0)
 
+// checks on given operands (no draws); shared with the structured sub-checks of section 7
+template <class S, class T> static void vm22_check (vp::Ctx& c, const S* v, const Matrix22<T>& m, bool lat)
+{
+    quad ex[4], as[4];
+    vm_exact<S, 2> (v, m, 2, false, ex, as);
+    Vec2<S>        V (v[0], v[1]);
+    Vec2<S>        r1 = V * m, r2 = V, r3 (S (9), S (9)), r4 = V;
+    const Vec2<S>& rr = (r2 *= m);
+    VP_REQUIRE (c, &rr == &r2, "v2m22-spellings", "V2 *= M22 does not return the vector");
+    m.multDirMatrix (V, r3);
+    m.multDirMatrix (r4, r4);
+    for (int j = 0; j < 2; ++j)
+    {
+        CHK (S, r1[j], ex[j], as[j], 3, lat, "v2m22/slot", "V2*M22 component " << j);
+        SAME (S, r1[j], r2[j], "v2m22-spellings", "V2*M22 vs V2*=M22 component " << j);
+        SAME (S, r1[j], r3[j], "v2m22-spellings", "V2*M22 vs M22.multDirMatrix component " << j);
+        SAME (S, r1[j], r4[j], "v2m22-aliased", "V2*M22 vs M22.multDirMatrix(v,v) component " << j);
+    }
+}
+template <class S, class T> static void vm33h_check (vp::Ctx& c, const S* v, const Matrix33<T>& m, bool lat)
+{
+    quad ex[4], as[4];
+    vm_exact<S, 2> (v, m, 3, true, ex, as);
+    Vec2<S>        V (v[0], v[1]);
+    Vec2<S>        r1 = V * m, r2 = V, r3 (S (9), S (9)), r4 = V;
+    const Vec2<S>& rr = (r2 *= m);
+    VP_REQUIRE (c, &rr == &r2, "v2m33-spellings", "V2 *= M33 does not return the vector");
+    m.multVecMatrix (V, r3);
+    m.multVecMatrix (r4, r4);
+    for (int j = 0; j < 2; ++j)
+    {
+        CHKH (S, r1[j], ex[j], as[j], ex[2], as[2], 4, lat, "v2m33-homogeneous/slot", "V2*M33 component " << j);
+        SAME (S, r1[j], r2[j], "v2m33-spellings", "V2*M33 vs V2*=M33 component " << j);
+        SAME (S, r1[j], r3[j], "v2m33-spellings", "V2*M33 vs M33.multVecMatrix component " << j);
+        SAME (S, r1[j], r4[j], "v2m33-aliased", "V2*M33 vs M33.multVecMatrix(v,v) component " << j);
+    }
+    // direction transform: upper-left 2x2 only, translation ignored
+    quad dx[2], da[2];
+    vm_exact<S, 2> (v, m, 2, false, dx, da);
+    Vec2<S> d1 (S (9), S (9)), d2 = V;
+    m.multDirMatrix (V, d1);
+    m.multDirMatrix (d2, d2);
+    Matrix22<T> ul (m[0][0], m[0][1], m[1][0], m[1][1]);
+    Vec2<S>     d3 = V * ul;
+    for (int j = 0; j < 2; ++j)
+    {
+        CHK (S, d1[j], dx[j], da[j], 3, lat, "m33-multDirMatrix/slot", "M33.multDirMatrix component " << j);
+        SAME (S, d1[j], d2[j], "m33-multDirMatrix-aliased", "M33.multDirMatrix(v,v) component " << j);
+        SAME (S, d1[j], d3[j], "m33-multDirMatrix-vs-2x2", "M33.multDirMatrix vs V2 * upper-left M22 component " << j);
+    }
+}
+template <class S, class T> static void vm33p_check (vp::Ctx& c, const S* v, const Matrix33<T>& m, bool lat)
+{
+    quad ex[4], as[4];
+    vm_exact<S, 3> (v, m, 3, false, ex, as);
+    Vec3<S>        V (v[0], v[1], v[2]);
+    Vec3<S>        r1 = V * m, r2 = V;
+    const Vec3<S>& rr = (r2 *= m);
+    VP_REQUIRE (c, &rr == &r2, "v3m33-spellings", "V3 *= M33 does not return the vector");
+    for (int j = 0; j < 3; ++j)
+    {
+        CHK (S, r1[j], ex[j], as[j], 4, lat, "v3m33-plain/slot", "V3*M33 component " << j);
+        SAME (S, r1[j], r2[j], "v3m33-spellings", "V3*M33 vs V3*=M33 component " << j);
+    }
+}
+template <class S, class T> static void vm44h_check (vp::Ctx& c, const S* v, const Matrix44<T>& m, bool lat)
+{
+    quad ex[4], as[4];
+    vm_exact<S, 3> (v, m, 4, true, ex, as);
+    Vec3<S>        V (v[0], v[1], v[2]);
+    Vec3<S>        r1 = V * m, r2 = V, r3 (S (9), S (9), S (9)), r4 = V;
+    const Vec3<S>& rr = (r2 *= m);
+    VP_REQUIRE (c, &rr == &r2, "v3m44-spellings", "V3 *= M44 does not return the vector");
+    m.multVecMatrix (V, r3);
+    m.multVecMatrix (r4, r4);
+    for (int j = 0; j < 3; ++j)
+    {
+        CHKH (S, r1[j], ex[j], as[j], ex[3], as[3], 5, lat, "v3m44-homogeneous/slot", "V3*M44 component " << j);
+        SAME (S, r1[j], r2[j], "v3m44-spellings", "V3*M44 vs V3*=M44 component " << j);
+        SAME (S, r1[j], r3[j], "v3m44-spellings", "V3*M44 vs M44.multVecMatrix component " << j);
+        SAME (S, r1[j], r4[j], "v3m44-aliased", "V3*M44 vs M44.multVecMatrix(v,v) component " << j);
+    }
+    quad dx[3], da[3];
+    vm_exact<S, 3> (v, m, 3, false, dx, da);
+    Vec3<S> d1 (S (9), S (9), S (9)), d2 = V;
+    m.multDirMatrix (V, d1);
+    m.multDirMatrix (d2, d2);
+    Matrix33<T> ul (m[0][0], m[0][1], m[0][2], m[1][0], m[1][1], m[1][2], m[2][0], m[2][1], m[2][2]);
+    Vec3<S>     d3 = V * ul;
+    for (int j = 0; j < 3; ++j)
+    {
+        CHK (S, d1[j], dx[j], da[j], 4, lat, "m44-multDirMatrix/slot", "M44.multDirMatrix component " << j);
+        SAME (S, d1[j], d2[j], "m44-multDirMatrix-aliased", "M44.multDirMatrix(v,v) component " << j);
+        SAME (S, d1[j], d3[j], "m44-multDirMatrix-vs-3x3", "M44.multDirMatrix vs V3 * upper-left M33 component " << j);
+    }
+}
+template <class S, class T> static void vm44p_check (vp::Ctx& c, const S* v, const Matrix44<T>& m, bool lat)
+{
+    quad ex[4], as[4];
+    vm_exact<S, 4> (v, m, 4, false, ex, as);
+    Vec4<S>        V (v[0], v[1], v[2], v[3]);
+    Vec4<S>        r1 = V * m, r2 = V;
+    const Vec4<S>& rr = (r2 *= m);
+    VP_REQUIRE (c, &rr == &r2, "v4m44-spellings", "V4 *= M44 does not return the vector");
+    for (int j = 0; j < 4; ++j)
+    {
+        CHK (S, r1[j], ex[j], as[j], 5, lat, "v4m44-plain/slot", "V4*M44 component " << j);
+        SAME (S, r1[j], r2[j], "v4m44-spellings", "V4*M44 vs V4*=M44 component " << j);
+    }
+}
+
 template <class S, class T> static void vecmat_case (vp::Ctx& c)
 {
     vp::Src& s     = c.s;
@@ -615,7 +742,6 @@ template <class S, class T> static void vecmat_case (vp::Ctx& c)
     mode_label (c, mode);
     S        v[4];
     Distinct dd;
-    quad     ex[4], as[4];
     switch (combo)
     {
         case 0:
@@ -631,20 +757,7 @@ template <class S, class T> static void vecmat_case (vp::Ctx& c)
                 for (int j = 0; j < 2; ++j)
                     dd.add (m[i][j]);
             }
-            vm_exact<S, 2> (v, m, 2, false, ex, as);
-            Vec2<S>        V (v[0], v[1]);
-            Vec2<S>        r1 = V * m, r2 = V, r3 (S (9), S (9)), r4 = V;
-            const Vec2<S>& rr = (r2 *= m);
-            VP_REQUIRE (c, &rr == &r2, "v2m22-spellings", "V2 *= M22 does not return the vector");
-            m.multDirMatrix (V, r3);
-            m.multDirMatrix (r4, r4);
-            for (int j = 0; j < 2; ++j)
-            {
-                CHK (S, r1[j], ex[j], as[j], 3, lat, "v2m22/slot", "V2*M22 component " << j);
-                SAME (S, r1[j], r2[j], "v2m22-spellings", "V2*M22 vs V2*=M22 component " << j);
-                SAME (S, r1[j], r3[j], "v2m22-spellings", "V2*M22 vs M22.multDirMatrix component " << j);
-                SAME (S, r1[j], r4[j], "v2m22-aliased", "V2*M22 vs M22.multDirMatrix(v,v) component " << j);
-            }
+            vm22_check<S, T> (c, v, m, lat);
             break;
         }
         case 1:
@@ -661,34 +774,7 @@ template <class S, class T> static void vecmat_case (vp::Ctx& c)
                 for (int j = 0; j < 3; ++j)
                     dd.add (m[i][j]);
             }
-            vm_exact<S, 2> (v, m, 3, true, ex, as);
-            Vec2<S>        V (v[0], v[1]);
-            Vec2<S>        r1 = V * m, r2 = V, r3 (S (9), S (9)), r4 = V;
-            const Vec2<S>& rr = (r2 *= m);
-            VP_REQUIRE (c, &rr == &r2, "v2m33-spellings", "V2 *= M33 does not return the vector");
-            m.multVecMatrix (V, r3);
-            m.multVecMatrix (r4, r4);
-            for (int j = 0; j < 2; ++j)
-            {
-                CHKH (S, r1[j], ex[j], as[j], ex[2], as[2], 4, lat, "v2m33-homogeneous/slot", "V2*M33 component " << j);
-                SAME (S, r1[j], r2[j], "v2m33-spellings", "V2*M33 vs V2*=M33 component " << j);
-                SAME (S, r1[j], r3[j], "v2m33-spellings", "V2*M33 vs M33.multVecMatrix component " << j);
-                SAME (S, r1[j], r4[j], "v2m33-aliased", "V2*M33 vs M33.multVecMatrix(v,v) component " << j);
-            }
-            // direction transform: upper-left 2x2 only, translation ignored
-            quad dx[2], da[2];
-            vm_exact<S, 2> (v, m, 2, false, dx, da);
-            Vec2<S> d1 (S (9), S (9)), d2 = V;
-            m.multDirMatrix (V, d1);
-            m.multDirMatrix (d2, d2);
-            Matrix22<T> ul (m[0][0], m[0][1], m[1][0], m[1][1]);
-            Vec2<S>     d3 = V * ul;
-            for (int j = 0; j < 2; ++j)
-            {
-                CHK (S, d1[j], dx[j], da[j], 3, lat, "m33-multDirMatrix/slot", "M33.multDirMatrix component " << j);
-                SAME (S, d1[j], d2[j], "m33-multDirMatrix-aliased", "M33.multDirMatrix(v,v) component " << j);
-                SAME (S, d1[j], d3[j], "m33-multDirMatrix-vs-2x2", "M33.multDirMatrix vs V2 * upper-left M22 component " << j);
-            }
+            vm33h_check<S, T> (c, v, m, lat);
             break;
         }
         case 2:
@@ -704,16 +790,7 @@ template <class S, class T> static void vecmat_case (vp::Ctx& c)
                 for (int j = 0; j < 3; ++j)
                     dd.add (m[i][j]);
             }
-            vm_exact<S, 3> (v, m, 3, false, ex, as);
-            Vec3<S>        V (v[0], v[1], v[2]);
-            Vec3<S>        r1 = V * m, r2 = V;
-            const Vec3<S>& rr = (r2 *= m);
-            VP_REQUIRE (c, &rr == &r2, "v3m33-spellings", "V3 *= M33 does not return the vector");
-            for (int j = 0; j < 3; ++j)
-            {
-                CHK (S, r1[j], ex[j], as[j], 4, lat, "v3m33-plain/slot", "V3*M33 component " << j);
-                SAME (S, r1[j], r2[j], "v3m33-spellings", "V3*M33 vs V3*=M33 component " << j);
-            }
+            vm33p_check<S, T> (c, v, m, lat);
             break;
         }
         case 3:
@@ -730,33 +807,7 @@ template <class S, class T> static void vecmat_case (vp::Ctx& c)
                 for (int j = 0; j < 4; ++j)
                     dd.add (m[i][j]);
             }
-            vm_exact<S, 3> (v, m, 4, true, ex, as);
-            Vec3<S>        V (v[0], v[1], v[2]);
-            Vec3<S>        r1 = V * m, r2 = V, r3 (S (9), S (9), S (9)), r4 = V;
-            const Vec3<S>& rr = (r2 *= m);
-            VP_REQUIRE (c, &rr == &r2, "v3m44-spellings", "V3 *= M44 does not return the vector");
-            m.multVecMatrix (V, r3);
-            m.multVecMatrix (r4, r4);
-            for (int j = 0; j < 3; ++j)
-            {
-                CHKH (S, r1[j], ex[j], as[j], ex[3], as[3], 5, lat, "v3m44-homogeneous/slot", "V3*M44 component " << j);
-                SAME (S, r1[j], r2[j], "v3m44-spellings", "V3*M44 vs V3*=M44 component " << j);
-                SAME (S, r1[j], r3[j], "v3m44-spellings", "V3*M44 vs M44.multVecMatrix component " << j);
-                SAME (S, r1[j], r4[j], "v3m44-aliased", "V3*M44 vs M44.multVecMatrix(v,v) component " << j);
-            }
-            quad dx[3], da[3];
-            vm_exact<S, 3> (v, m, 3, false, dx, da);
-            Vec3<S> d1 (S (9), S (9), S (9)), d2 = V;
-            m.multDirMatrix (V, d1);
-            m.multDirMatrix (d2, d2);
-            Matrix33<T> ul (m[0][0], m[0][1], m[0][2], m[1][0], m[1][1], m[1][2], m[2][0], m[2][1], m[2][2]);
-            Vec3<S>     d3 = V * ul;
-            for (int j = 0; j < 3; ++j)
-            {
-                CHK (S, d1[j], dx[j], da[j], 4, lat, "m44-multDirMatrix/slot", "M44.multDirMatrix component " << j);
-                SAME (S, d1[j], d2[j], "m44-multDirMatrix-aliased", "M44.multDirMatrix(v,v) component " << j);
-                SAME (S, d1[j], d3[j], "m44-multDirMatrix-vs-3x3", "M44.multDirMatrix vs V3 * upper-left M33 component " << j);
-            }
+            vm44h_check<S, T> (c, v, m, lat);
             break;
         }
         default:
@@ -772,16 +823,7 @@ template <class S, class T> static void vecmat_case (vp::Ctx& c)
                 for (int j = 0; j < 4; ++j)
                     dd.add (m[i][j]);
             }
-            vm_exact<S, 4> (v, m, 4, false, ex, as);
-            Vec4<S>        V (v[0], v[1], v[2], v[3]);
-            Vec4<S>        r1 = V * m, r2 = V;
-            const Vec4<S>& rr = (r2 *= m);
-            VP_REQUIRE (c, &rr == &r2, "v4m44-spellings", "V4 *= M44 does not return the vector");
-            for (int j = 0; j < 4; ++j)
-            {
-                CHK (S, r1[j], ex[j], as[j], 5, lat, "v4m44-plain/slot", "V4*M44 component " << j);
-                SAME (S, r1[j], r2[j], "v4m44-spellings", "V4*M44 vs V4*=M44 component " << j);
-            }
+            vm44p_check<S, T> (c, v, m, lat);
             break;
         }
     }
@@ -975,26 +1017,9 @@ template <class T, class MT> static void det_labels44 (vp::Ctx& c, const MT& A)
     if (A[0][3] == 0 && A[1][3] == 0 && A[2][3] == 0 && A[3][3] == 1) c.label (L_AFFINE);
 }
 
-template <class T, int N> static void det_dim (vp::Ctx& c, int mode)
+template <class T, int N> static void det_check (vp::Ctx& c, const typename TY<T, N>::M& A, const typename TY<T, N>::M& B, bool lat)
 {
     typedef typename TY<T, N>::M MT;
-    vp::Src&                     s = c.s;
-    MT                           A, B;
-    gen_mat<T, N> (c, mode, A, DET_GE (T));
-    gen_mat<T, N> (c, mode, B, DET_GE (T));
-    bool     lat = mode == M_LATTICE;
-    Distinct da;
-    for (int i = 0; i < N; ++i)
-        for (int j = 0; j < N; ++j)
-            da.add (A[i][j]);
-    bool dist = da.result ();
-    if (dist) c.label (L_DISTINCT);
-    bool skip = false;
-    if (N == 4)
-        for (int i = 0; i < 4; ++i)
-            if (A[i][N - 1] == 0) skip = true;
-    c.nt (lat || dist || (mode == M_SPARSE && (N < 4 || skip)));
-    VP_NOTE (c, tname<T> () << " N=" << N << " " << mode_name (mode) << " A=" << mstr (A, N) << " B=" << mstr (B, N));
     QM<N> qa = QM<N>::from (A), qb = QM<N>::from (B);
     quad  sa, sb;
     quad  detA = det (qa, &sa), detB = det (qb, &sb);
@@ -1016,7 +1041,27 @@ template <class T, int N> static void det_dim (vp::Ctx& c, int mode)
         det (pabs, &perm);
         CHK (T, dP, detA * detB, perm, N * (N + 1) + kd, lat, N == 2 ? "det22-product" : N == 3 ? "det33-product" : "det44-product", "Matrix" << N << N << " det(A*B) vs det(A)det(B)");
     }
-    (void) s;
+}
+template <class T, int N> static void det_dim (vp::Ctx& c, int mode)
+{
+    typedef typename TY<T, N>::M MT;
+    MT                           A, B;
+    gen_mat<T, N> (c, mode, A, DET_GE (T));
+    gen_mat<T, N> (c, mode, B, DET_GE (T));
+    bool     lat = mode == M_LATTICE;
+    Distinct da;
+    for (int i = 0; i < N; ++i)
+        for (int j = 0; j < N; ++j)
+            da.add (A[i][j]);
+    bool dist = da.result ();
+    if (dist) c.label (L_DISTINCT);
+    bool skip = false;
+    if (N == 4)
+        for (int i = 0; i < 4; ++i)
+            if (A[i][N - 1] == 0) skip = true;
+    c.nt (lat || dist || (mode == M_SPARSE && (N < 4 || skip)));
+    VP_NOTE (c, tname<T> () << " N=" << N << " " << mode_name (mode) << " A=" << mstr (A, N) << " B=" << mstr (B, N));
+    det_check<T, N> (c, A, B, lat);
 }
 
 template <class T> static void minors33 (vp::Ctx& c, int mode, const Matrix33<T>& A)
